@@ -281,7 +281,21 @@ T('c06_twin_isinstance_positive', ['C06', 'C08'],
 # ------------------------------------------------------------------ C07
 B('c07_unquoted_location', ['C07'], 'R07.b', (A, "parts = [request.url_root.rstrip('/'), url_quote(norm_path),", "parts = [request.url_root.rstrip('/'), norm_path,"))
 B('c07_quote_safe_question', ['C07'], 'R07.b', (A, 'url_quote(norm_path)', "url_quote(norm_path, safe='/:?#')"))
-B('c07_query_dropped', ['C07'], 'R07.b', (A, "                                 '?', request.query_string.decode('utf8')]", "                                 ]"))
+B('c07_query_dropped', ['C07'], 'R07.b', (A, "                                 '?', query]", "                                 ]"))
+_QDEC = ("                        try:\n                            query = query.decode('utf8')\n                        except UnicodeDecodeError:\n"
+         "                            # arbitrary bytes: keep them, percent-encoded\n                            query = url_quote(query, safe=_QUERY_SAFE)\n")
+B('c08_strict_query_decode', ['C08'], 'R08.g', (A, _QDEC, "                        query = query.decode('utf8')\n"))
+B('c08_strict_decode_in_wsgi_entry', ['C08'], 'R08.g',
+  (A, '        request = self.request_type(environ)\n', "        request = self.request_type(environ)\n        request.raw_query = request.query_string.decode('ascii')\n"))
+B('c08_query_handler_too_narrow', ['C08'], 'R08.g', (A, '                        except UnicodeDecodeError:\n', '                        except UnicodeEncodeError:\n'))
+B('c07_query_requoted', ['C07'], 'R07.b', (A, 'query = url_quote(query, safe=_QUERY_SAFE)', "query = url_quote(query, safe='/')"))
+B('c07_query_replaced_by_args', ['C07'], 'R07.b', (A, '                        query = request.query_string\n', "                        query = '&'.join(sorted(request.args)).encode('utf8')\n"))
+T('c08_twin_query_decode_replace', ['C08'],(A, _QDEC, "                        query = query.decode('utf8', 'replace')\n"))
+T('c08_twin_query_handler_valueerror', ['C08', 'C07'], (A, '                        except UnicodeDecodeError:\n', '                        except ValueError:\n'))
+T('c08_twin_query_helper_inline', ['C08', 'C07'],
+  (A, "                        query = request.query_string\n" + _QDEC,
+      "                        try:\n                            query = request.query_string.decode('utf8')\n                        except UnicodeError:\n"
+      "                            query = url_quote(request.query_string, safe=_QUERY_SAFE)\n"))
 B('c07_redirect_in_any_mode', ['C07'], 'R07.a', (A, '                    if route.slash_mode == S_REDIRECT:', '                    if route.slash_mode != S_STRICT:'))
 B('c07_redirect_before_method', ['C07', 'C06'], {'C07': 'R07.a', 'C06': 'R06.b'},
   (A, '            method_allowed = route.match_method(method)\n            if not method_allowed:\n                dispatch_state.update_methods(route.methods)\n                continue\n            if route.is_branch:',
@@ -299,8 +313,8 @@ B('c07_redirect_leaf', ['C07'], 'R07.a',
   (A, '            if route.is_branch:\n                norm_path = normalize_path(url_path, route.is_branch)', '            if True:\n                norm_path = normalize_path(url_path, route.is_branch)'))
 T('c07_twin_quote_from_urllib', ['C07'], (A, 'url_quote(norm_path)', 'quote(norm_path)'))
 T('c07_twin_concat', ['C07'],
-  (A, "                        parts = [request.url_root.rstrip('/'), url_quote(norm_path),\n                                 '?', request.query_string.decode('utf8')]\n                        return redirect(''.join(parts))",
-      "                        location = request.url_root.rstrip('/') + url_quote(norm_path) + '?' + request.query_string.decode('utf8')\n                        return redirect(location)"))
+  (A, "                        parts = [request.url_root.rstrip('/'), url_quote(norm_path),\n                                 '?', query]\n                        return redirect(''.join(parts))",
+      "                        location = request.url_root.rstrip('/') + url_quote(norm_path) + '?' + query\n                        return redirect(location)"))
 
 # ------------------------------------------------------------------ C08
 B('c08_execute_outside_try', ['C08'], 'R08.a',
@@ -478,7 +492,7 @@ B('s2_head_decided_before_upper', ['C06'], 'R06.d',
   (R, "            if 'GET' in self.methods:\n                self.methods.add('HEAD')\n", ''),
   (R, '        self.methods = methods and set([m.upper() for m in methods])\n', "        self.methods = methods and set([m.upper() for m in methods])\n        if methods and 'GET' in methods:\n            self.methods.add('HEAD')\n"))
 B('s2_query_reencoded', ['C07'], 'R07.b',
-  (A, "                                 '?', request.query_string.decode('utf8')]", "                                 '?', url_encode(request.args)]"))
+  (A, "                                 '?', query]", "                                 '?', url_encode(request.args)]"))
 B('s2_execute_error_layers', ['C10', 'C02'], {'C10': 'R10.c', 'C02': 'R02.c'},
   (R, "                       '_application': self.bound_apps[-1]}\n        injectables.update(self.resources)\n        injectables.update(kwargs)\n        return inject(self.render_error, injectables)",
       "                       '_application': self.bound_apps[-1]}\n        merged = dict(kwargs)\n        merged.update(self.resources)\n        merged.update(injectables)\n        return inject(self.render_error, merged)"))
